@@ -17,8 +17,8 @@ PARTS = {
     2: dict(name="fit_spline SE2", flags=(), chunk=3),
     3: dict(name="fit_spline SE3", flags=(), chunk=2),
     4: dict(name="fit_spline R3/R1", flags=(), chunk=5),
-    # fit_bspline runs in forked children under AddressSanitizer: an out-of-bounds access is recorded as
-    # "the call did not return normally" instead of silently corrupting the heap
+    # every library call runs in a forked child of the harness; fit_bspline additionally under AddressSanitizer, so
+    # that an out-of-bounds access is recorded as "the call did not return normally" instead of silently corrupting the heap
     5: dict(name="fit_bspline", flags=("-fsanitize=address", "-fno-omit-frame-pointer"), chunk=48),
     6: dict(name="dubins_curve", flags=(), chunk=8),
     7: dict(name="reparameterize_spline", flags=(), chunk=6),
